@@ -13,7 +13,7 @@
    Reading aids:  pc cv p = components of p;  render cv l = canonical string of a component list;
                   key cv d l = l | folded l | folded l but for the leaf (display mode). *)
 From Coq Require Import NArith List Bool String Ascii.
-From CS Require Import Sx Str StrLemmas PathModel PathLaws.
+From CS Require Import Sx Str StrLemmas PathModel PathLaws GenPrims GenPath PathGenLaws.
 Import ListNotations.
 Definition str_of (x : string) : str := map N_of_ascii (list_ascii_of_string x).
 Arguments str_of x%string.
@@ -288,3 +288,22 @@ Proof.
   split; [split; reflexivity|]. split; [exists (str_of "Local"); reflexivity|].
   split; [exists (str_of "remote"); reflexivity|]. vm_compute. auto.
 Qed.
+
+(* ------------------------------------------------------------------ second tie: the source as translated *)
+(* GenPath.v is regenerated from cloudsync/provider.py by harness/translator.py on every run; these
+   equalities carry every theorem above over to what the source of the four helpers says now. *)
+Theorem C13_gen_nps : forall cv p, gen_nps cv p = nps cv p.
+Proof. exact gen_nps_eq. Qed.
+Print Assumptions C13_gen_nps.
+
+Theorem C13_gen_split : forall cv p, gen_split cv p = split cv p.
+Proof. exact gen_split_eq. Qed.
+Print Assumptions C13_gen_split.
+
+Theorem C13_gen_is_subpath : forall cv f t st, gen_is_subpath cv f t st = is_subpath cv f t st.
+Proof. exact gen_is_subpath_eq. Qed.
+Print Assumptions C13_gen_is_subpath.
+
+Theorem C13_gen_replace_path : forall cv p f t, gen_replace_path cv p f t = replace_path cv p f t.
+Proof. exact gen_replace_path_eq. Qed.
+Print Assumptions C13_gen_replace_path.
